@@ -583,7 +583,19 @@ class Translator:
 
 # ---------------------------------------------------------------------- emission
 def sanitize(n):
-    return n.replace(".", "_")
+    """Coq identifier part for a python name; `__` is reserved by Coq's extraction, so a leading underscore
+    becomes `priv_` and a dunder name `dunder_<name>`."""
+    pre = ""
+    if n.startswith("info_"):
+        pre, n = "info_", n[5:]
+    for acc in ("get_", "set_"):
+        if n.startswith(acc):
+            pre, n = pre + acc, n[len(acc):]
+    if n.startswith("__") and n.endswith("__") and len(n) > 4:
+        n = "dunder_" + n[2:-2]
+    elif n.startswith("_"):
+        n = "priv_" + n[1:]
+    return (pre + n).replace(".", "_").replace("__", "_x_")
 
 
 def emit_acts(acts, ids, indent):
